@@ -14,8 +14,8 @@ CHECKS = {
         category="exploration", design="4/C05",
         text="Sharing structure: for every history of <= 3 insert/make_trainable calls (groups of unequal size included) the 0/1 "
              "Jacobian of the simulated parameters with respect to the trainable values must be the indicator of TLC's DEff. "
-             "Numbers: radius, length, axial resistivity, capacitance, initial v, leak conductance/reversal, data_stimulate "
-             "amplitude, data_set value x sharing pattern x {bwd_euler, crank_nicolson} x 3 backends x checkpoint layouts on "
+             "Numbers: radius, length, axial resistivity, capacitance, initial v, leak conductance/reversal, every sample of a "
+             "data_stimulate series (with samples that are exactly 0), data_set value x sharing pattern x {bwd_euler, crank_nicolson} x 3 backends x checkpoint layouts on "
              "enumerated trees, rtol 1e-7 against an independent forward-mode derivative of the specified scheme; HH cell: "
              "reverse vs forward mode, extrapolated finite differences as a guarded third opinion.",
         note="TLC pins the transposition/sharing structure and (via C01) the rational core; derivatives through exp rest on JAX's "
@@ -181,7 +181,9 @@ CHECKS = {
              "on the real cell: after every call every public table, get_all_parameters/get_all_states and (where recordings "
              "exist) integrate's output must equal the specification's successor state / integer observation. Recorded random histories "
              "(code -> spec) are validated by TLC against Trace_Module.tla. Second stage: set_ncomp sequences (SetNcomp.tla) on cells "
-             "that carry channels, per-branch parameters and groups, compared with the directly built module.",
+             "that carry channels, per-branch parameters and groups, compared with the directly built module. Third stage: NetSim.tla "
+             "histories on networks with synapses (connect, then recordings / clamps / trainables of synapses made and deleted through "
+             "type, k-th-edge and node-selection views while voltage recordings of every compartment exist), replayed on the real network.",
         note="Trusted: TLC; probe channels make the dynamics integer exact; one irregular cell, 7 views. No known finding is left for this property."
              ""),
     "C10": dict(
@@ -194,7 +196,8 @@ CHECKS = {
              "transition compares get_all_parameters/get_all_states with Eff, and every Set transition is also performed via "
              "data_set and via make_trainable and simulated. Second stage (synaptic parameters): every weight-edit history of NetSim.tla "
              "is replayed through .set, data_set or make_trainable against the same specification state (views: type, k-th edge, "
-             "node selections holding both synapse types).",
+             "node selections holding both synapse types). Geometry as a user channel sees it: radius / length / axial_resistivity "
+             "supplied by set, data_set, make_trainable + params and write_trainables must give the same simulation.",
         note="Trusted: TLC; value tokens {1,2}; sharing by module/branch/compartment; views include ones that exclude the "
              "module's last compartment."),
     "C11": dict(
